@@ -3,7 +3,7 @@
 from __future__ import annotations
 
 import engine_impl as EI
-from engine_common import OUTCOMES, closure, declared_upstream, ideal_contents
+from engine_common import OUTCOMES, after_targets, closure, declared_upstream, ideal_contents, eval_expr
 
 O = {n: i for i, n in enumerate(OUTCOMES)}
 NONRUN = {O["SKIP"], O["SKIP_UNCHANGED"], O["SKIP_PREVIOUS_FAILED"], O["PERSISTENCE"], O["WOULD_BE_EXECUTED"]}
@@ -22,12 +22,7 @@ def after_only_pairs(tasks):
     out = set()
     byid = {t["id"]: t for t in tasks}
     for t in tasks:
-        ups = set(t["after_fn"])
-        if t["after_expr"]:
-            for u in tasks:
-                if u["id"] != t["id"] and any(a.strip() == f"t{u['id']}_" for a in t["after_expr"].split(" or ")):
-                    ups.add(u["id"])
-        for u in ups:
+        for u in after_targets(t, tasks):
             if not byid[u]["prods"]:
                 out.add((u, t["id"]))
     return out
@@ -102,9 +97,8 @@ def o_c08(cimp, ctx):
             before = ctx["raw"]["files_before"]
             missing_dep = any(str(d) not in before and d not in files for d in tk["deps"]) or any(d not in files for d in tk["deps"])
             after_miss = False
-            for u in tasks.values():
-                if u["id"] in tk["after_fn"] or (tk["after_expr"] and f"t{u['id']}_" in tk["after_expr"]):
-                    after_miss |= any(p not in files for p in u["prods"])
+            for ui in after_targets(tk, list(tasks.values())):
+                after_miss |= any(p not in files for p in tasks[ui]["prods"])
             if not (f or missing_dep or after_miss):
                 probs.append((f"task {t} reported FAIL without an injected fault or a missing dependency", ()))
         if isinstance(f, dict) and all(p in files for p in f["omit"]):
@@ -141,6 +135,10 @@ def o_c04(cimp, ctx):
     for u in failed:
         if {r for r in prev_db if r[0] == u} != {r for r in cimp["db"] if r[0] == u}:
             probs.append((f"failed task {u} changed its recorded states", ()))
+    nfail = len(failed)
+    if (cfg["max_failures"] is None or nfail < cfg["max_failures"]) and set(rep) != {t["id"] for t in tasks}:
+        probs.append((f"the build stopped after {nfail} failure(s) although the limit is {cfg['max_failures']}: "
+                      f"tasks {sorted({t['id'] for t in tasks} - set(rep))} were never processed", ()))
     if cfg["max_failures"] is not None:
         m = cfg["max_failures"]
         seen = 0
@@ -314,9 +312,7 @@ def o_c10(cimp, ctx):
 
 def neighbours_of(t, tasks):
     byid = {x["id"]: x for x in tasks}
-    ups = set(t["after_fn"])
-    if t["after_expr"]:
-        ups |= {u["id"] for u in tasks if u["id"] != t["id"] and any(a.strip() == f"t{u['id']}_" for a in t["after_expr"].split(" or "))}
+    ups = after_targets(t, tasks)
     return list(t["deps"]) + [p for u in sorted(ups) for p in byid[u]["prods"]] + list(t["prods"])
 
 
